@@ -8,7 +8,8 @@
 From Coq Require Import NArith List Bool Permutation.
 From LC Require Import Base.Lib Model.Utf8 Model.Der Model.Syllable Model.TrieCodec
      Proofs.DerProofs Proofs.TrieFileProofs Proofs.TrieShape Proofs.TrieValidate Proofs.TrieTotal Proofs.TrieWitness
-     Proofs.TrieLayout Proofs.TrieRoundtrip.
+     Proofs.TrieLayout Proofs.TrieRoundtrip Proofs.TrieEntries.
+From Coq Require Import Sorted.
 Import ListNotations.
 Open Scope N_scope.
 
@@ -147,6 +148,58 @@ Theorem C11_write_deterministic : forall info es1 es2,
 Proof. intros info es1 es2 ->. reflexivity. Qed.
 Print Assumptions C11_write_deterministic.
 
+(* ------------------------------------------------------------------ *)
+(* in terms of the ENTRIES that were inserted (Proofs/TrieEntries.v)      *)
+
+(* the builder's tree read as a map: under every key exactly what the insertion sequence holds for it (a
+   re-inserted string replaces the earlier one in place, a new one is pushed); None for a key never inserted *)
+Theorem C11_built_tree_holds_the_inserted_entries : forall es k, tget k (build es) = phrases_for es k.
+Proof. exact tget_build. Qed.
+Print Assumptions C11_built_tree_holds_the_inserted_entries.
+
+Theorem C11_a_key_has_phrases_iff_inserted : forall es k, phrases_for es k <> None <-> In k (map fst es).
+Proof. exact phrases_for_some. Qed.
+Print Assumptions C11_a_key_has_phrases_iff_inserted.
+
+(* EXACT lookup on the file written for ANY list of entries (within the format's capacities), any query, any
+   `first`: exactly the phrases inserted under that syllable sequence with their frequencies and timestamps, in leaf
+   order, cut to `first`; nothing for a sequence that was not inserted *)
+Theorem C11_exact_lookup_returns_what_was_inserted : forall info es bytes q first,
+  info_ok info -> root_ok (build es) -> write info (build es) = Ok bytes -> Forall (fun s => s <> 0) q ->
+  exists tr, open bytes = Ok tr /\
+    lookup tr q first STANDARD = Ok (trunc first (match phrases_for es q with Some ps => sort_leaf ps | None => [] end)).
+Proof.
+  intros info es bytes q first Hi Hr Hw Hq.
+  destruct (write_read info (build es) bytes Hi Hr Hw) as (tr & Ho & _ & Hl & _).
+  exists tr. split; [exact Ho|]. rewrite (Hl q first STANDARD Hq). f_equal. apply exact_lookup_build.
+Qed.
+Print Assumptions C11_exact_lookup_returns_what_was_inserted.
+
+(* FUZZY (prefix) lookup on that file: there is a list of keys - strictly ascending in the lexicographic order of the
+   syllable codes, exactly the inserted keys with the query's number of syllables whose every syllable is non-zero
+   and begins with the query's partial syllable - and the answer is, key by key in that order, what was inserted
+   under the key, in leaf order (`first` at least the size of the answer) *)
+Theorem C11_fuzzy_lookup_returns_the_matching_entries : forall info es bytes q first,
+  info_ok info -> root_ok (build es) -> write info (build es) = Ok bytes -> Forall (fun s => s <> 0) q ->
+  exists tr ks, open bytes = Ok tr /\
+    StronglySorted klt ks /\
+    (forall k, In k ks <-> In k (map fst es) /\ smatch k q = true) /\
+    let answer := flat_map (fun k => leaf_list (phrases_for es k)) ks in
+    (len_N answer <= first -> lookup tr q first FUZZY = Ok answer).
+Proof.
+  intros info es bytes q first Hi Hr Hw Hq.
+  destruct (write_read info (build es) bytes Hi Hr Hw) as (tr & Ho & _ & Hl & _).
+  destruct (fuzzy_lookup_build es q first) as (ks & Hs & Hk & Ha).
+  exists tr, ks. split; [exact Ho|]. split; [exact Hs|]. split; [exact Hk|].
+  cbv zeta in *. intros Hlen. rewrite (Hl q first FUZZY Hq). f_equal. now apply Ha.
+Qed.
+Print Assumptions C11_fuzzy_lookup_returns_the_matching_entries.
+
+(* the order `klt` is the strict lexicographic order: irreflexive, so a strictly ascending list has no key twice *)
+Theorem C11_key_order_is_strict : forall k, ~ klt k k.
+Proof. induction k as [|x k IH]; cbn [klt]; [tauto|]. intros [H|[_ H]]; [exact (N.lt_irrefl _ H) | exact (IH H)]. Qed.
+Print Assumptions C11_key_order_is_strict.
+
 (* leaf order: a stable sort by the comparator of write() *)
 Theorem C11_leaf_sorted_is_permutation : forall ps, Permutation (sort_leaf ps) ps.
 Proof. intros ps. apply ssort_perm. Qed.
@@ -201,6 +254,16 @@ Proof.
   split; [vm_compute; reflexivity|]. split; [vm_compute; reflexivity|]. split; [vm_compute; reflexivity|].
   split; vm_compute; reflexivity.
 Qed.
+
+(* the entry-level reading of the same example: the key [11859; 5256] is the one inserted key matching the partial
+   syllables [11776; 5120]; two strings were inserted under it; the re-inserted one replaced the earlier in place *)
+Example C11_entries_example :
+  smatch [11859; 5256] [11776; 5120] = true /\ smatch [11859] [11776; 5120] = false /\
+  In [11859; 5256] (map fst ex_es) /\
+  leaf_list (phrases_for ex_es [11859; 5256]) =
+    [mkPhrase [231; 173; 150; 232; 169; 166] 200 None; mkPhrase [230; 184; 172; 232; 169; 166] 100 None] /\
+  phrases_for ex_es [5256] = None.
+Proof. split; [vm_compute; reflexivity|]. split; [vm_compute; reflexivity|]. split; [vm_compute; tauto|]. split; vm_compute; reflexivity. Qed.
 
 (* the hypotheses of C11_write_read hold for it *)
 Ltac tok_tac :=
